@@ -95,7 +95,9 @@ def decode_case(cid: str, tmpl, x: list, with_objs: bool, rng: random.Random) ->
            # the template's own data (not what the space derived from it)
            "t": {"W": small(tmpl.bin_width), "H": small(tmpl.bin_height),
                  "k": small(min(tmpl.lower_bound_bins, tmpl.n_items)),
-                 "n": small(tmpl.n_items), "name": str(tmpl.name) + "n"},
+                 "n": small(tmpl.n_items), "name": str(tmpl.name) + "n",
+                 "titems": [[small(tmpl[i, 0]), small(tmpl[i, 1]), small(tmpl[i, 2])]
+                            for i in range(tmpl.n_different_items)]},
            "space_min_bins": small(space.min_bins),
            "x": [float(v) for v in x], "events": events,
            "res": {"name": inst.name, "W": small(inst.bin_width), "H": small(inst.bin_height),
@@ -104,10 +106,13 @@ def decode_case(cid: str, tmpl, x: list, with_objs: bool, rng: random.Random) ->
                    "items": [[small(inst[i, 0]), small(inst[i, 1]), small(inst[i, 2])]
                              for i in range(inst.n_different_items)]},
            "again": 1 if same else 0, "reuse": 1 if reuse_ok else 0, "objs": []}
+    # the similarity objective is cheap: every decoded instance is judged against the documented deviation sum
+    e = Errors(space)
+    v = float(e.evaluate(y))
+    from fractions import Fraction
+    rec["objs"].append({"name": "errors", "v": f64(v), "v2": f64(float(e.evaluate(y))),
+                        "vd": core.sbig(int(round(Fraction(v) * (1 << 60))))})
     if with_objs:
-        e = Errors(space)
-        v = float(e.evaluate(y))
-        rec["objs"].append({"name": "errors", "v": f64(v), "v2": f64(float(e.evaluate(y)))})
         rec["objs"].append({"name": "errors-of-template", "v": f64(float(e.evaluate([tmpl]))),
                             "v2": f64(float(e.evaluate(tmpl)))})
         h = Hardness(max_fes=rng.choice([16, 40]), n_runs=2)
